@@ -105,8 +105,15 @@ def ob_search(ctx):
     n = P["n"]
     pattern = P["pattern"]
     r = ctx.mk.seq("r", n, "ACGT")
-    target, linear, kw = _target(ctx, P["kind"], r)
     rx = st.regex.DNARegex(pattern)
+    if P.get("history"):
+        # the same pattern object already searched the same record object while it held other letters
+        r0 = ctx.mk.seq("r0", n, "ACGT")
+        target, linear, kw = _target(ctx, P["kind"], r0)
+        rx.search(target, **kw)
+        target.seq = st.Seq(r)
+    else:
+        target, linear, kw = _target(ctx, P["kind"], r)
     if P["window"]:
         pos = ctx.mk.int("pos", 0, n + 2)
         endpos = ctx.mk.int("endpos", 0, n + 2)
@@ -280,6 +287,10 @@ def obligations(tier, seed):
             obs.append(Ob("search kit pattern of %s.%s on circ n=%d default-range" % (params["kit"], params["cls"], n),
                           ob_search, dict(pattern=pat, kind="circ", n=n, window=False), samples=4, cost=n * n * 2,
                           group="kit pattern %s" % pat))
+    for kind, pat, n in tier_pick(tier, [("circ", "GA(N*)TC", 6), ("rec", "R(N)Y", 5)],
+                                  [("circ", "GA(N*)TC", 8), ("rec", "R(N)Y", 6), ("circ", "(S)(W+)(S)", 7), ("rec", "GA(N*?)TC", 7)]):
+        obs.append(Ob("search %s on a %s whose sequence was replaced after an earlier search n=%d" % (pat, kind, n), ob_search,
+                      dict(pattern=pat, kind=kind, n=n, window=False, history=True), samples=6, cost=2 * n * n, group="history"))
     gmax = tier_pick(tier, 10, 16)
     for kind in ("seq", "rec", "circ"):
         for n in range(1, gmax + 1):
